@@ -16,7 +16,7 @@ REPO = Path(os.environ.get("QIB_REPO", "/repo"))
 EVID = ROOT / "evidence"
 REPLAYS = ROOT / "replays"
 KNOWN = ROOT / "known_findings.json"
-DRIVER = LEAN / ".lake" / "build" / "bin" / "qibdriver"
+BIN = LEAN / ".lake" / "build" / "bin"
 LOCK = LEAN / ".verif.lock"
 ALLOWED_AXIOMS = {"propext", "Classical.choice", "Quot.sound"}
 FORBIDDEN = re.compile(r"\bsorry\b|\badmit\b|^axiom |native_decide|bv_decide|implemented_by|\bunsafe |maxHeartbeats 0|ofReduceBool")
@@ -188,15 +188,16 @@ def audit_axioms(prop_id, prop_files):
 class Driver:
     """Feeds JSON lines to the compiled Lean driver and returns the parsed replies."""
 
-    def __init__(self):
-        if not DRIVER.exists():
-            raise RuntimeError("driver not built")
+    def __init__(self, exe):
+        self.exe = BIN / exe
+        if not self.exe.exists():
+            raise RuntimeError(f"driver {exe} not built")
 
     def run(self, reqs, timeout=3000):
         if not reqs:
             return []
         data = "\n".join(json.dumps(r, separators=(",", ":")) for r in reqs) + "\n"
-        p = subprocess.run([str(DRIVER)], input=data, capture_output=True, text=True, timeout=timeout)
+        p = subprocess.run([str(self.exe)], input=data, capture_output=True, text=True, timeout=timeout)
         lines = [l for l in p.stdout.splitlines() if l.strip()]
         if p.returncode != 0 or len(lines) != len(reqs):
             raise RuntimeError(f"driver failed rc={p.returncode} replies={len(lines)}/{len(reqs)} stderr={p.stderr[:500]}")
